@@ -40,6 +40,9 @@ PP = "mokapot.picked_protein."
 
 
 def run(ctx):
+    from .common import READ_FASTA, FASTA_OPTIONS, cli_routing
+    cli_routing(ctx, "C15c-cli-fasta-options", READ_FASTA, FASTA_OPTIONS,
+                "the protein database the picked-protein step pairs targets and decoys with")
     prog = ctx.prog
     _strip(ctx, prog.func(PP + "strip_peptides"))
     _picked(ctx, prog.func(PP + "picked_protein"))
